@@ -40,6 +40,12 @@ def gen_scenario(rng, sid):
                 prog.append(send((a + 1) % n, []))
             if rng.random() < 0.2:
                 prog.append(setT(t, rng.choice([10, 30])))       # periodic re-arm
+            # a timer handler that cancels / re-arms the OTHER timer (which may have expired at the same moment)
+            q2 = rng.random()
+            if q2 < 0.35:
+                prog.insert(0, cancel(3 - t))
+            elif q2 < 0.5:
+                prog.insert(0, setT(3 - t, rng.choice([40, 80])))
             timers[str(t)] = jcmds(prog)
         actors.append(dict(start=jcmds(start), timers=timers))
     steps = []
@@ -65,6 +71,13 @@ def gen_scenario(rng, sid):
             # set-cancel-re-arm sequences within one handler
             if rng.random() < 0.2:
                 cmds += [setT(1, 50), cancel(1), setT(1, 20)]
+            # both timers armed with the same (possibly zero) duration: they expire in the same loop iteration
+            if rng.random() < 0.25:
+                d = rng.choice([0, 0, 5, 20])
+                cmds += [setT(1, d), setT(2, d)]
+            # a datagram larger than one MTU (the runtime must deliver the whole message)
+            if rng.random() < 0.15:
+                cmds += [cancel(2) if k % 2 else cancel(1) for k in range(rng.choice([50, 120, 400]))] + [send(-1, [])]
             steps.append(dict(k="send", to=to, p=jcmds(cmds), garbage=False))
     # make sure periodic timers stop: cancel everything at the end, then settle
     for a in range(n):
